@@ -115,6 +115,23 @@ impl Engine for CacheEngine {
             }
             return l;
         }
+        if idx % 7 == 3 {
+            // long ids that share long prefixes (asset trees look like that): every operation on one key has to reach the
+            // same shard whatever the id's length (seeded change C02-g hashed a 24-byte prefix in `get_shard` only, so
+            // `remove` / `take` looked into another shard than `insert`)
+            let pre = *rng.pick(&["assets.textures.characters.hero", "a.very.long.directory.name.of.more.than.twenty-four.bytes", "0123456789012345678901234"]);
+            let k = rng.range(6, 16);
+            let ids: Vec<String> = (0..k).map(|i| format!("{pre}.{}{i}", "x".repeat(rng.below(3)))).collect();
+            for id in &ids { l.push(format!("goi {} {} {}", *rng.pick(&["I", "N0"]), hexs(id), rng.below(1000))); }
+            for id in &ids { let h = hexs(id); let t = *rng.pick(&["I", "N0"]);
+                l.push(format!("contains {t} {h}")); l.push(format!("cached {t} {h}"));
+                l.push(format!("{} {t} {h}", *rng.pick(&["remove", "take", "take", "remove", "contains"])));
+                l.push(format!("contains {t} {h}")); }
+            l.push("dump".into());
+            for id in &ids { if rng.chance(1, 2) { l.push(format!("goi I {} 5", hexs(id))); l.push(format!("take I {}", hexs(id))); } }
+            l.push("dump".into());
+            return l;
+        }
         let malformed = idx % 5 == 4;
         let pinned = gen_source(rng, &mut l, true, true);
         let n = rng.range(5, if tier == Tier::Thorough { 60 } else { 30 });
